@@ -9,7 +9,7 @@ from .. import framework as F
 from .. import terms as T
 
 DONORS_Q = ["C03", "C04", "C05", "C08", "C13", "C19", "C14", "C15", "C17"]
-DONORS_T = DONORS_Q + ["C06", "C09", "C16", "C07", "C11"]
+DONORS_T = DONORS_Q + ["C06", "C09", "C16", "C07", "C10", "C11"]
 PER_DONOR_Q = 80
 PER_DONOR_T = 400
 
@@ -319,6 +319,8 @@ class C20(F.Check):
 
             def fn(K, *args, bn=base.name, vn=v.name, ret=base.ret):
                 a, b = K[bn](*args), K[vn](*args)
+                if a.ret is None or b.ret is None:      # a kernel that traps on every path: equivalent iff the other one does too
+                    return T.not_(T.or_(a.unwind, b.unwind)), T.const_bool(a.ret is None and b.ret is None)
                 same = T.eq(a.ret, b.ret)
                 if F.ct_is_float(ret):
                     fmt = F.FMT_OF[ret]
